@@ -366,6 +366,9 @@ func c25one(r *kit.Run, idx int, seq []int, steps []storStep, hn []string) bool 
 				}
 				if cnt <= 12 {
 					allowed = c25allowed(steps, run)
+					if inList(allowed, fmtState(run.final)) != admitted {
+						panic(fmt.Sprintf("C25 machinery: the per-key oracle (%v, %s) and the mask enumeration %v disagree on %v for history %v", admitted, why, allowed, fmtState(run.final), hn))
+					}
 				} else {
 					allowed = []string{"(per key) " + why}
 				}
